@@ -31,6 +31,12 @@ public:
 
 private:
     static inline tree_instance storages_; // NOLINT
+    /**
+     * @brief serializes create_storage / delete_storage. delete_storage looks the
+     * entry up and removes the name in two steps; another delete + create of the same
+     * name in between would make it unlink an entry it did not look up.
+     */
+    static inline std::mutex ddl_mutex_; // NOLINT
 };
 
 } // namespace yakushima
